@@ -51,6 +51,7 @@ func init() {
 		Exhaustive: true,
 		Gen:        genC06,
 		Run:        runC06,
+		RunChild:   runC06Direct,
 		Compare:    cmpC06,
 		Shrink:     c06ShrinkR,
 		Assumptions: []string{
@@ -566,6 +567,16 @@ func c06Encodings(v any) map[string]*openapi3.Encoding {
 // ---------------------------------------------------------------- the real code
 
 func runC06(c hx.Case) any {
+	// the decoder registry is process-wide and not goroutine-safe: cases that change it run in a child process
+	// (one case at a time there), which restores the registry afterwards
+	if len(jlist(c["regOps"])) > 0 {
+		return hx.RunIsolated("C06", c, 30000)
+	}
+	return runC06Direct(c)
+}
+
+func runC06Direct(c hx.Case) any {
+	defer c06ApplyRegOps(jlist(c["regOps"]))()
 	rb := openapi3.NewRequestBody()
 	rb.Required = jbool(c, "required")
 	rb.Content = openapi3.Content{}
@@ -1173,6 +1184,8 @@ func genC06(ctx *hx.Ctx, emit func(hx.Case)) {
 	genDefaults(ctx, emit)
 	// (G) request construction variants (kind of Body, ContentLength, GetBody) and repeated validation
 	genReqShapes(ctx, emit)
+	// (H) the decoder registry as state: histories of Register/Unregister (child process)
+	genRegistry(ctx, emit)
 	// random stream
 	nr := 10000
 	if ctx.Thorough() {
